@@ -402,10 +402,8 @@ class DppAdapter(SelAdapter):
             if self.multi:
                 gp.update(num_probes_min=1, num_probes_max=max(2, i.get("pmax", 3)))
             env = make_dpp_env(self.multi, i["size"], gp)
-            if self.multi:
-                # MDPPEnv.__init__ leaves `max_decaps` at the default generator's value (finding
-                # `mdpp:ctor-quota-ignored`, checked separately); the quota under test is injected here
-                env.max_decaps = i["q"]
+            # the quota under test is the one the real constructor takes from `generator_params`
+            # (MDPPEnv: upstream fix 5c8314b of the former finding `mdpp-ctor-quota-C08`)
             self._envs[key] = env
         return self._envs[key]
 
@@ -479,6 +477,16 @@ FLP, MCP, DPP, MDPP = FlpAdapter(), McpAdapter(), DppAdapter(False), DppAdapter(
 # =================================================================================================
 # comparison helpers
 # =================================================================================================
+def ask_many(ctx, lines: List[str], chunk: int = 48) -> List[str]:
+    """`leanio` pipelines up to 2000 requests before it reads a reply; the replies of this family carry
+    whole bookkeeping traces, so a large batch would fill the pipe in both directions and dead-lock.
+    Small chunks keep request + reply volume far below the pipe capacity."""
+    out: List[str] = []
+    for k in range(0, len(lines), chunk):
+        out += ctx.driver.ask_many(lines[k:k + chunk])
+    return out
+
+
 def chooser(rng):
     return lambda r, t, feas: rng.choice(feas)
 
@@ -528,6 +536,17 @@ def batch_kind(ad, insts) -> str:
     return "mixed-quota" if len({i["q"] for i in insts}) > 1 else "equal-quota"
 
 
+def is_mixed_quota_padding(insts: List[dict], r: int, tr: "Trace") -> bool:
+    """Exactly the trigger of the known mixed-quota findings: the batch holds different quotas, row r
+    finished at its OWN quota, that quota is smaller than the largest one in the batch, and the loop ran
+    until the largest quota was reached (so the extra selections of row r are the padding steps and
+    nothing else).  Any other way of being stepped after finishing / over-selecting is reported fresh."""
+    qs = [i["q"] for i in insts]
+    fd = first_done(tr.done[r])
+    return (len(set(qs)) > 1 and fd is not None and fd == insts[r]["q"] and insts[r]["q"] < max(qs)
+            and len(tr.actions[r]) == max(qs) and not tr.empty)
+
+
 def pick_mixed(ctx, ad) -> bool:
     return ad.per_row_quota and ctx.rng.random() < 0.35
 
@@ -544,7 +563,7 @@ def check_selection(ctx, ad: SelAdapter, quick=160, thorough=2500):
         insts = ad.gen_batch(ctx.rng, B, ctx.tier, mixed)
         env = ad.env_for(insts)
         tr = run_sel(ad, env, insts, chooser(ctx.rng))
-        replies = ctx.driver.ask_many([ad.line(insts[r], tr.actions[r]) for r in range(B)])
+        replies = ask_many(ctx, [ad.line(insts[r], tr.actions[r]) for r in range(B)])
         bk = batch_kind(ad, insts)
         ctx.count(f"{ad.name}.batches.{bk}")
         for (r, t) in tr.empty:
@@ -569,9 +588,12 @@ def check_selection(ctx, ad: SelAdapter, quick=160, thorough=2500):
             padded = fd is not None and len(acts) > fd
             if padded:
                 ctx.count(f"{ad.name}.rows-stepped-after-finish")
-                ctx.violation(f"{ad.name}:mixed-quota:over-selection",
+                known = is_mixed_quota_padding(insts, r, tr)
+                ctx.violation(f"{ad.name}:mixed-quota:over-selection" if known else f"{ad.name}:over-selection",
                               f"row with quota {inst['q']} selected {len(acts)} items: it keeps selecting "
-                              "(mask = not-chosen) while a batch-mate with a larger quota is still running",
+                              "(mask = not-chosen) while a batch-mate with a larger quota is still running" if known else
+                              f"row with quota {inst['q']} was stepped after it finished and selected {len(acts)} items "
+                              "(not explained by a larger quota in the batch)",
                               {"inst": inst, "actions": acts, "quotas_in_batch": [i["q"] for i in insts], "row": r,
                                "final_chosen": tr.obs[r][-1].get("chosen")})
                 # the selection up to the row's own finish must still be a feasible one
@@ -678,7 +700,7 @@ def check_termination(ctx, ad: SelAdapter, quick=160, thorough=2500):
             ctx.violation(f"{ad.name}:no-termination", f"real env: {e}", {"insts": insts})
             n_rows += B
             continue
-        replies = ctx.driver.ask_many([ad.line(insts[r], tr.actions[r]) for r in range(B)])
+        replies = ask_many(ctx, [ad.line(insts[r], tr.actions[r]) for r in range(B)])
         ctx.count(f"{ad.name}.batches.{batch_kind(ad, insts)}")
         for (r, t) in tr.empty:
             ctx.violation(f"{ad.name}:dead-end", "a row is offered no action while the batch is still running",
@@ -732,7 +754,7 @@ def check_reward(ctx, ad: SelAdapter, quick=160, thorough=2500):
             n_rows += B
             continue
         lines = [ad.line(insts[r], tr.actions[r]) for r in range(B)]
-        replies = ctx.driver.ask_many(lines)
+        replies = ask_many(ctx, lines)
         ctx.count(f"{ad.name}.batches.{batch_kind(ad, insts)}")
         for r in range(B):
             inst = insts[r]
@@ -783,7 +805,7 @@ def check_batch_independence(ctx, ad: SelAdapter, quick=40, thorough=500):
             except ValueError:
                 rew_b = None
         # batched rows vs the per-instance model
-        replies = ctx.driver.ask_many([ad.line(insts[r], tr.actions[r]) for r in range(B)])
+        replies = ask_many(ctx, [ad.line(insts[r], tr.actions[r]) for r in range(B)])
         for r in range(B):
             compare_row(ctx, ad, insts[r], tr, r, replies[r], "C04 batched row vs solo model", bookkeeping=True)
         # the same rows in another order, same actions: every observable of a row must be unchanged
@@ -822,7 +844,12 @@ def check_batch_independence(ctx, ad: SelAdapter, quick=40, thorough=500):
                 except ValueError:
                     continue
                 if abs(rew_s - rew_b[r]) > ad.reward_tol(inst):
-                    key = (f"{ad.name}:mixed-quota:reward-depends-on-batch" if (padded and bk == "mixed-quota")
+                    # known only if it is exactly the mixed-quota padding AND the batched reward is what the
+                    # per-instance model computes for everything the row selected (nothing else leaked in)
+                    fr = parse_fields(replies[r])
+                    explained = "reward" in fr and abs(int(fr["reward"]) - rew_b[r]) <= ad.reward_tol(inst)
+                    key = (f"{ad.name}:mixed-quota:reward-depends-on-batch"
+                           if (padded and is_mixed_quota_padding(insts, r, tr) and explained)
                            else f"{ad.name}:batch-dependence:reward")
                     ctx.violation(key, "reward of the same instance and the same selections differs between the solo run and "
                                        "the batched run (the row keeps selecting after its own quota while a batch-mate runs)"
@@ -852,7 +879,7 @@ def check_completeness(ctx, ad: SelAdapter, quick=16, thorough=150):
         cands = [list(c) for c in itertools.product(range(n), repeat=q)]
         if len(cands) > 4096:
             continue
-        replies = ctx.driver.ask_many([ad.line(inst, c) for c in cands])
+        replies = ask_many(ctx, [ad.line(inst, c) for c in cands])
         spec_feas, spec_obj = set(), {}
         for c, rep in zip(cands, replies):
             f = parse_fields(rep)
@@ -986,9 +1013,8 @@ def _thms(ns: str, prop: str) -> List[Theorem]:
                 Theorem(P + "feasible_of_run", "proved", "complete episode is Spec-feasible"),
                 Theorem(P + "mask_eq_history", "proved", "mask = reset mask minus the cells used so far"),
                 Theorem(P + "mdpp_probe_never_offered", "proved", "MDPP never offers a probing port, whatever the instance mask"),
-                Theorem(P + "mdpp_ctor_quota_counterexample", "proved",
-                        "¬ (MDPPEnv steps with its generator's max_decaps) — known finding"),
-                Theorem(P + "mdpp_ctor_quota_partial", "partial", "… it does iff the configured value equals the default generator's"),
+                Theorem(P + "mdpp_ctor_quota", "proved",
+                        "MDPPEnv steps with its generator's max_decaps, whatever the parent's default generator says (fixed in 5c8314b)"),
                 Theorem(P + "dpp_ctor_quota", "proved", "DPPEnv steps with its generator's max_decaps")]
     if prop == "C02":
         t = [Theorem(P + "mask_nonempty", "proved", "fewer selections than offered items ⇒ the mask is non-empty (any run, finished or not)"),
